@@ -150,7 +150,9 @@ def run(ck):
             shapes += [(N,), (N, 2), (N, 3), (N, 1), (1, N)]
         shapes = sorted(set(shapes))
         reps = ck.n(1, 4)
+        fmt_count = [0]
         for rep in range(reps):
+            fmt_count[0] = rep
             for ext in FORMATS:
                 for shape in shapes:
                     for cplx in (False, True):
@@ -180,7 +182,11 @@ def run(ck):
                             except Exception as e:
                                 ck.fail("raises:save_data:%s" % ext, "save_data raised %r" % (e,), inp)
                                 continue
-                            b2 = Box(None)
+                            # the receiving object may hold data already (of another type or shape): an import replaces them
+                            recv = (None, "float zeros", "int zeros", "other shape")[fmt_count[0] % 4]; fmt_count[0] += 1
+                            b2 = Box(None if recv is None else numpy.zeros(shape, dtype=float) if recv == "float zeros" else
+                                     numpy.zeros(shape, dtype=int) if recv == "int zeros" else numpy.zeros((3,), dtype=float))
+                            inp["receiving object held"] = recv
                             ax2 = TimeAxis(0.0, N, 1.0) if with_axis else None
                             try:
                                 with quiet():
@@ -458,6 +464,35 @@ def run(ck):
                         if (exact and dev != 0.0) or dev > 1e-13:
                             kk = "basis:saved-inside-context" if cs in ("basis-read", "basis-nested") else "values:parcel:%s:%s" % (key, cl)
                             ck.fail(kk, "observable `%s` of the loaded object differs from the saved one" % k, inp, dev, 0.0 if exact else 1e-13)
+        # ---- spectra export their frequency axis with the data: export and import under the same units context --------------------
+        from quantarhei.spectroscopy.absbase import AbsSpectrumBase
+        from quantarhei import FrequencyAxis
+        for un in (None, "1/cm", "eV", "THz"):
+            for ext in (".dat", ".npy"):
+                inp = {"scenario": "AbsSpectrumBase.save_data / load_data", "units context": un, "format": ext}
+                ck.case(("spect-export", un, ext), nontrivial=un is not None, kind="format", format=ext, with_axis=True)
+                try:
+                    with energy_units("1/cm"):
+                        wa = FrequencyAxis(10000.0, 60, 5.0)
+                        yy = numpy.exp(-(wa.data - 10150.0) ** 2 / (40.0 ** 2))
+                    sp = AbsSpectrumBase(axis=wa, data=yy.copy())
+                    fn3 = os.path.join(tmp, "spect" + ext)
+                    with (energy_units(un) if un else contextlib.nullcontext()):
+                        ax_before = numpy.array(sp.axis.data)
+                        with quiet():
+                            sp.save_data(fn3)
+                        sp2 = AbsSpectrumBase(axis=FrequencyAxis(0.0, 60, 1.0))
+                        with quiet():
+                            sp2.load_data(fn3)
+                        ax_after = numpy.array(sp2.axis.data)
+                    dev = float(numpy.abs(ax_after - ax_before).max() / numpy.abs(ax_before).max()) if ax_after.shape == ax_before.shape else 1e300
+                    devd = float(numpy.abs(numpy.asarray(sp2.data) - yy).max())
+                    ck.resid("spectrum export/import: axis (relative)", dev)
+                    if dev > 1e-13 or devd > 1e-13:
+                        ck.fail("values:spectrum-export", "frequencies or values of an exported and re-imported spectrum differ from the original ones",
+                                inp, [dev, devd], 0.0)
+                except Exception as e:
+                    ck.fail("raises:spectrum-export", "raised %r" % (e,), inp)
         # ---- axis values replaced by an import, then saved ----------------------------------------------------------------
         for via in ("file", "scopy"):
             src = DFunction(TimeAxis(100.0, 50, 2.5), numpy.sin(numpy.arange(50) / 5.0))
